@@ -57,8 +57,10 @@ type c04Case struct {
 	CutWho      int
 	Sign        bool
 	Salt        int
-	OtherGlobal bool  `json:",omitempty"` // process-global curve set to the curve this resharing does not use
-	GenPre      []int `json:",omitempty"` // ECDSA, last stage: new members that let the library generate their pre-parameters
+	ProofMode   string `json:",omitempty"` // ECDSA: "mod" / "fac": only that proof is switched on (overrides Proofs)
+	IDStyle     string `json:",omitempty"` // "", "blank", "shared": free-form id strings of the parties
+	OtherGlobal bool   `json:",omitempty"` // process-global curve set to the curve this resharing does not use
+	GenPre      []int  `json:",omitempty"` // ECDSA, last stage: new members that let the library generate their pre-parameters
 }
 
 func genC04(edd bool) func(t *rapid.T) c04Case {
@@ -104,6 +106,9 @@ func genC04(edd bool) func(t *rapid.T) c04Case {
 			curN, curT = nn, st.NewT
 		}
 		c.Proofs = !edd && rapid.Bool().Draw(t, "proofs")
+		if !edd {
+			c.ProofMode = rapid.SampledFrom([]string{"", "", "", "mod", "fac"}).Draw(t, "proofMode")
+		}
 		nodes := len(c.Stages[0].Old) + len(c.Stages[0].NewKeys)
 		c.Sched = genSched(t, nodes, schedNoDup)
 		c.Cut = rapid.SampledFrom([]string{"", "", "", "prefix", "prefix", "silent", "silent", "announce-wrong-key"}).Draw(t, "cut")
@@ -112,6 +117,7 @@ func genC04(edd bool) func(t *rapid.T) c04Case {
 		c.Sign = edd || rapid.IntRange(0, 2).Draw(t, "sign") == 0
 		c.Salt = rapid.IntRange(0, 1<<20).Draw(t, "salt")
 		c.OtherGlobal = rapid.IntRange(0, 2).Draw(t, "otherGlobal") == 0
+		c.IDStyle = rapid.SampledFrom([]string{"", "", "", "blank", "shared"}).Draw(t, "idStyle")
 		return c
 	}
 }
@@ -286,7 +292,7 @@ func runC04(c c04Case) ev.Outcome {
 	var desc []string
 	for si, st := range c.Stages {
 		last := si == len(c.Stages)-1
-		run := protoRun{Proto: proto, Key: key, Members: st.Old, NewKeys: st.NewKeys, NewT: st.NewT, Proofs: c.Proofs, OtherGlobalCurve: c.OtherGlobal}
+		run := protoRun{Proto: proto, Key: key, Members: st.Old, NewKeys: st.NewKeys, NewT: st.NewT, Proofs: c.Proofs, OtherGlobalCurve: c.OtherGlobal, IDStyle: c.IDStyle, ProofMode: c.ProofMode}
 		if si == len(c.Stages)-1 {
 			run.GenPre = c.GenPre
 		}
@@ -464,6 +470,12 @@ func labelC04(out ev.Outcome, c c04Case, desc []string, w *reshareWatch) ev.Outc
 	out.Label = fmt.Sprintf("reshare %s %s chain=%s proofs=%v sched=%s cut=%s sign=%v", proto, c.Key, strings.Join(desc, ","), c.Proofs, c.Sched.Class(), cut, c.Sign)
 	if c.OtherGlobal {
 		out.Label += " global-curve=other"
+	}
+	if c.IDStyle != "" {
+		out.Label += " id-strings=" + c.IDStyle
+	}
+	if c.ProofMode != "" {
+		out.Label += " only-proof=" + c.ProofMode
 	}
 	first := c.Stages[0]
 	out.Nontrivial = c.Cut != "" || first.NewT != c.Key.T || len(first.Old) > c.Key.T+1 || c.Proofs || len(c.Stages) > 1
